@@ -197,6 +197,10 @@ def step (st : State) (toks : List String) : State × String :=
   -- a peer asks for the tree (`handleRequestTree`): answered iff present; nothing else changes — in
   -- particular a scheduled removal stays scheduled
   | ["peerreq"] => (st, (if x.present then "answered " else "ignored ") ++ obs x)
+  -- handler gating of the harness (`hold`: the handlers of an instance block, `release`: one returns):
+  -- the model does not follow handlers (C05 does); the harness's oracle watches them
+  | ["hold", tok] => if tok.toNat?.isSome then (st, "ok") else (st, "bad-op")
+  | ["release", tok] => if tok.toNat?.isSome then (st, "ok") else (st, "bad-op")
   | ["localstart", tok] =>
     match tok.toNat? with
     | some tok =>
